@@ -62,6 +62,11 @@ def _pack(t, pk, reorder, k):
     """AWQPackedTensor.pack(t, packing, reorder) in one of the spellings its signature allows: the layout requested is the
     same whether the arguments are given by keyword or by position"""
     form = k % 4
+    if (k // 4) % 3 == 1:
+        # the flag as what a caller's expression yields: an int, a numpy bool, a 0-dim bool tensor (true or false like the bool)
+        import numpy as np
+
+        reorder = [int(reorder), np.bool_(reorder), torch.tensor(bool(reorder))][(k // 12) % 3]
     if form == 0:
         return cut(AWQPackedTensor.pack, t, packing=pk, reorder=reorder)
     if form == 1:
